@@ -43,6 +43,18 @@ def make_cases(ctx, n, depth, allow_huge):
     return cases
 
 
+def corpus_cases():
+    """the witnesses of the refuted theorems (known findings C03-a/b/c) and minimised past failures: always run first"""
+    out = []
+    s = b'A' * 65536
+    out.append(dict(t=('string',), hdr=1, exp='s' + s.hex(), enc='s' + s.hex(), rest=b'B', flags=['string>=65536']))
+    b = b'A' * 255
+    out.append(dict(t=('python',), hdr=1, exp='b' + b.hex(), enc='b' + b.hex(), rest=b'B', flags=['python>=255']))
+    l = '[' + ','.join(['i7'] * 255) + ']'
+    out.append(dict(t=('array', ('u', 1), None), hdr=1, exp=l, enc=l, rest=b'', flags=['count>=255']))
+    return out
+
+
 def mutate(rng, data):
     if not data: return bytes([rng.randrange(256)])
     r = rng.random()
@@ -74,7 +86,7 @@ def run_generated(ctx, ncases, depth, allow_huge):
         aliases = gen_aliases(rng)
         lib = impl.LibTypes(aliases, rng)
         try:
-            cases = make_cases(ctx, per, depth, allow_huge)
+            cases = (corpus_cases() if b == 0 else []) + make_cases(ctx, per, depth, allow_huge)
             # make sure alias trees themselves are used as case types
             for n, t in aliases.items():
                 vg = gen_types.ValueGen(rng); exp, enc = vg.value(t)
